@@ -7,7 +7,16 @@
 (*   [id, depth, layout, names, pre, ev]                                   *)
 (*   layout = sib / api / far (where the clients live relative to the      *)
 (*   core), names = unrelated / prefix-related (observed spelling of the   *)
-(*   package names: one a string prefix of another, not its parent)        *)
+(*   package names: one a string prefix of another, not its parent),       *)
+(*   env = what the WORLD did to the shared core earlier in this history   *)
+(*   ("none", or the kind of the environment step: conflict, empty, ...,   *)
+(*   reg-deleted, aliases-deleted, int-registry, ...).  Environment steps  *)
+(*   themselves are not judged: only generator steps are traces; the       *)
+(*   observation after the environment step is the `pre` of the next one.  *)
+(*   A generator step may fail visibly (applied = FALSE): the clients that *)
+(*   worked before it must still work after it.                            *)
+(*   regstate = absent / file / unreadable / list (registry clause only    *)
+(*   when the registry is a readable JSON object)                          *)
 (*   pre = [generated, ok, served, declared, regfile, registry]            *)
 (*         (the observation after the previous step of the same history)   *)
 (*   ev[1]   = [k |-> "generate", client, codes, force, applied, regfile,  *)
@@ -47,13 +56,13 @@ StepKind ==
 Victim(c) == IF c = G.client THEN "self" ELSE "other-client"
 
 Locus(c, exc, what) ==
-  [core_depth |-> T.depth, layout |-> T.layout, names |-> T.names, step_kind |-> StepKind, victim |-> Victim(c),
+  [core_depth |-> T.depth, layout |-> T.layout, names |-> T.names, env |-> T.env, step_kind |-> StepKind, victim |-> Victim(c),
    force |-> G.force, exc |-> exc, what |-> what]
 
 \* ---- C11.registry_lost_client: the registry file is there but does not cover a client generated so far
 Covers(reg, c, codes) == c \in DOMAIN reg /\ codes \subseteq ToSet(reg[c])
-PreLost(c) == Pre.regfile /\ c \in PreGen /\ ~Covers(Pre.registry, c, DeclOf(Pre.declared, c))
-LostNow == IF T.depth >= 1 /\ G.regfile
+PreLost(c) == Pre.regstate = "file" /\ c \in PreGen /\ ~Covers(Pre.registry, c, DeclOf(Pre.declared, c))
+LostNow == IF T.depth >= 1 /\ G.regstate = "file"
            THEN {c \in GenAfter : ~Covers(G.registry, c, DeclAfter(c)) /\ ~PreLost(c)}
            ELSE {}
 LostHow(c) == IF c \in DOMAIN G.registry THEN "codes-shrunk" ELSE "missing-key"
@@ -101,7 +110,7 @@ Fin ==
   /\ l = Len(Ev) + 1
   /\ l' = l + 1
   /\ PrintT("VERDICT " \o ToJson([id |-> T.id, fails |-> fails, nprobe |-> nprobe, nother |-> nother,
-                                  kind |-> StepKind, regchecked |-> (T.depth >= 1 /\ G.regfile)]))
+                                  kind |-> StepKind, regchecked |-> (T.depth >= 1 /\ G.regstate = "file")]))
   /\ UNCHANGED <<tid, fails, nprobe, nother>>
 
 Next == Step \/ Fin
